@@ -320,7 +320,7 @@ def run_check(prop, tier, jobs, budget, verif_seed):
         def more():
             if tier == 'quick':
                 return next_seed < seed0 + n_quick
-            return clock.real_time() < deadline and len(shapes) < 6_000_000
+            return clock.real_time() < deadline
         while more() and len(pending) < jobs * 2:
             submit()
         while pending:
@@ -344,8 +344,10 @@ def run_check(prop, tier, jobs, budget, verif_seed):
                     total[key] += part[key]
                 for key, val in part["stats"].items():
                     total["stats"][key] = total["stats"].get(key, 0) + val
-                shapes |= part["shapes"]
-                nt_shapes |= part["nontrivial_shapes"]
+                # distinct counting stops (conservatively) at 4M entries
+                if len(shapes) < 4_000_000:
+                    shapes |= part["shapes"]
+                    nt_shapes |= part["nontrivial_shapes"]
                 total["errors"] += part["errors"]
                 if len(total["samples"]) < 4:
                     total["samples"] += part["samples"][:1]
